@@ -17,7 +17,7 @@ pub fn checks() -> Vec<Check> {
             id: "C30",
             title: "Gossipsub accepts only messages valid for the validation mode",
             level: Level::Exploration,
-            rule: "Frames with 1..4 publish messages are built by an independent encoder: ed25519 / secp256k1 / ecdsa authors, key field present/absent/foreign, from/seqno/signature present, absent, empty or malformed, and 0..2 seeded mutations (bit flips in from/data/seqno/topic/signature, field removal, field swap between messages) applied after signing. Each frame is decoded by the real GossipsubCodec in Strict, Permissive, Anonymous mode. An independent verifier (libp2p_identity verify over 'libp2p-pubsub:'+re-encoded fields) decides what may be surfaced as valid: Strict => source, 8-byte-or-empty seqno, signature by the source's key over exactly these fields; Anonymous => none of source/seqno/signature; Permissive => whatever is present is valid. An untouched signed message must be accepted in Strict (non-vacuity), a mutated one must be reported invalid",
+            rule: "Frames with 1..4 publish messages are built by an independent encoder: ed25519 / secp256k1 / ecdsa authors, key field present/absent/foreign, forgeries whose `from` names a victim while key and signature are the attacker's, from/seqno/signature present, absent, empty or malformed, and 0..2 seeded mutations (bit flips in from/data/seqno/topic/signature, field removal, field swap between messages) applied after signing. Each frame is decoded by the real GossipsubCodec in Strict, Permissive, Anonymous mode. An independent verifier (libp2p_identity verify over 'libp2p-pubsub:'+re-encoded fields) decides what may be surfaced as valid: Strict => source, 8-byte-or-empty seqno, signature by the source's key over exactly these fields; Anonymous => none of source/seqno/signature; Permissive => whatever is present is valid. An untouched signed message must be accepted in Strict (non-vacuity), a mutated one must be reported invalid",
             assumptions: &["the oracle re-implements only the signing-bytes layout (protobuf field order from,data,seqno,topic) and uses libp2p_identity for signature verification"],
             real: &["GossipsubCodec::decode with validation (protocol.rs)", "libp2p_identity signature verification"],
             stub: &["message construction -> hand-written protobuf encoder"],
@@ -110,6 +110,17 @@ fn validation_modes() -> SimResult {
             1 => {
                 m.from = Some(peer.to_bytes());
                 m.seqno = Some((choose(1 << 30) as u64).to_be_bytes().to_vec());
+            }
+            // forgery: `from` names a victim, the attached key is the attacker's and the signature is a correct
+            // signature by that attached key over the message (so nothing about the signature itself is wrong)
+            2 => {
+                let victim = keypair(choose(3)).public().to_peer_id();
+                m.from = Some(victim.to_bytes());
+                m.seqno = Some((choose(1 << 30) as u64).to_be_bytes().to_vec());
+                m.key = Some(kp.public().encode_protobuf());
+                let sig = kp.sign(&m.signing_bytes()).map_err(|e| violation!("harness/sign", "{e:?}"))?;
+                m.signature = Some(sig);
+                probe("forged-source-with-attackers-key");
             }
             // fully signed (the normal Strict message)
             _ => {
